@@ -289,7 +289,7 @@ func runSequential(c *kit.Case) {
 	}
 	var hist []histEntry
 	fail := func(cls, msg string) {
-		c.Violation(cls, msg, map[string]any{"channels": cfgs, "keys": keys, "history_tail": tail(hist, 40), "variant": "sequential"})
+		c.Violation(cls, mm.Clean(msg), map[string]any{"channels": cfgs, "keys": keys, "history_tail": tail(hist, 40), "variant": "sequential"})
 	}
 	readMode := r.Intn(10) // <5: read state+stream after every op; <8: same but never create a channel by reading; else: sometimes
 	seen := 0             // handler calls consumed
@@ -626,7 +626,7 @@ func runConcurrent(c *kit.Case) {
 		cfgs[cc.name] = cc.cfg
 	}
 	fail := func(cls, msg string) {
-		c.Violation(cls, msg, map[string]any{"channels": cfgs, "keys": keys, "history": recs, "handler_calls": env.Rec.Since(0), "variant": "concurrent"})
+		c.Violation(cls, mm.Clean(msg), map[string]any{"channels": cfgs, "keys": keys, "history": recs, "handler_calls": env.Rec.Since(0), "variant": "concurrent"})
 	}
 
 	overlap := 0
